@@ -15,7 +15,7 @@ Modelled exactly (byte level, over `List UInt8`):
 
 The model describes the code AFTER the repairs D1 (bundle element size validated), D5 (size
 prediction), D6 (clumping counts the 4-byte element prefix), D-C06-1 (None-timed nested bundles are
-sized), D-C06-2 (strings with an embedded NUL are refused).
+sized), D-C06-2 (strings with an embedded NUL are refused), D-C18-3 (negative blob size refused).
 
 Abstracted (trusted): `struct.pack('>f')` double→single conversion (a float argument carries its
 32-bit pattern), Python `str.encode('utf-8')` (a `str` is carried as its UTF-8 bytes; `strBad` is
@@ -172,6 +172,7 @@ def getMidi (d : Bytes) (i : Int) : Except DErr (DVal × Int) := do
 
 def getBlob (d : Bytes) (i : Int) : Except DErr (Bytes × Int) := do
   let (size, io) ← getInt d i
+  if size < 0 then .error .typeParse else       -- repair D-C18-3
   let total := size + ((-size) % 4)
   let endIdx := io + size
   if endIdx - i > ((pyFrom d i).length : Int) then .error .typeParse
